@@ -211,9 +211,48 @@ func c07One(sc *c07Scn, idx int) verdict {
 		build = buildGeneric("exec")
 	}
 
+	if sc.State == "open-fails" {
+		// the session never comes up: the transport reports a read error in the middle of the hello / the login dialogue, Open
+		// returns an error; the user closes the driver all the same. Nothing Open started is left behind.
+		if sc.Driver == "netconf" {
+			build = buildNetconf("1.1", false)
+		} else {
+			build = buildLogin("telnet")
+		}
+
+		cfg.connTimeout = 2 * time.Second
+	}
+
 	before := len(libGoroutines(false))
 
 	s, err := build(cfg)
+
+	if err == nil && sc.State == "open-fails" {
+		s.pipe.SetLoss("err", 25)
+
+		var oerr error
+
+		fin, pan := withWatchdog(6*time.Second, func() {
+			if s.nc != nil {
+				oerr = s.nc.Open()
+			} else {
+				oerr = s.gd.Open()
+			}
+		})
+
+		switch {
+		case !fin:
+			fail(&v, sigBase+":open-hangs", "Open did not return although the transport reported a read error after 25 bytes")
+		case pan != nil:
+			fail(&v, sigBase+":open-panics", "Open panicked: %v", pan)
+		case oerr == nil:
+			v.OK, v.Sig, v.Detail = false, "TOOL", "Open succeeded although the transport reported a read error after 25 bytes"
+		}
+
+		if !v.OK {
+			return v
+		}
+	}
 
 	// opening the session is not what is judged here: under load the 300 ms budget of the hello / login exchange can be
 	// missed, so the setup is retried with a generous one; a setup that keeps failing is tool trouble, not a verdict
@@ -233,8 +272,10 @@ func c07One(sc *c07Scn, idx int) verdict {
 		return v
 	}
 
-	s.pipe.WaitDrained(time.Second)
-	time.Sleep(2 * time.Millisecond)
+	if sc.State != "open-fails" {
+		s.pipe.WaitDrained(time.Second)
+		time.Sleep(2 * time.Millisecond)
+	}
 
 	if sc.CloseErr {
 		s.pipe.Lock()
